@@ -12,6 +12,7 @@
      glob              last[], curr_chan (one value, or two when the tree has one per field), xds
      chsw              vbi_channel_switched() + an empty vbi_decode() that executes the reset
      layout            constants of the compiled code (cross-check of translate/gen_cc.py)
+     cu <hex8> <0|1>   vbi_caption_unicode (c, to_upper), c = four bytes big-endian -> ok <hex>
 */
 #include "hutil.h"
 #include "src/vbi.h"
@@ -165,6 +166,13 @@ int main(void)
 				for (i = 0x1130; i < 0x1140; ++i) printf("%x%s", vbi_caption_unicode(i, 0), i == 0x113f ? "" : ",");
 				printf("\n");
 			} else printf("rej parse\n");
+		} else if (H_IS(0, "cu")) {
+			int len = 0; uint8_t *b = NULL;
+			if (h_ntok == 3 && (b = h_hex(h_tok[1], &len)) && len == 4 && h_int(h_tok[2], &v) && (v == 0 || v == 1)) {
+				unsigned int c = ((unsigned int) b[0] << 24) | ((unsigned int) b[1] << 16) | ((unsigned int) b[2] << 8) | b[3];
+				printf("ok %x\n", vbi_caption_unicode(c, (vbi_bool) v));
+			} else printf("rej parse\n");
+			free(b);
 		} else printf("rej op\n");
 	}
 	if (vbi) vbi_decoder_delete(vbi);
